@@ -141,6 +141,10 @@ def ws_scope(path='/', spec_version='2.3', subprotocols=(), headers=(), extra=No
     return sc
 
 
+class SendRefused(RuntimeError):
+    """raised by WsServer.send() for a close event it was told to refuse (transient server error)"""
+
+
 class WsServer:
     """Fake ASGI WebSocket server end.
 
@@ -157,6 +161,8 @@ class WsServer:
     label(event)    projection of an event for the log (default: its type)
     recv_mode       'immediate' | 'suspend'   (see module doc)
     send_mode       'immediate' | 'suspend'
+    refuse_close    set to True by the harness: the next websocket.close handed to send() is logged and
+                    then refused - send() raises SendRefused - once (the flag is cleared)
     The initial websocket.connect is answered without logging.  A cancelled receive() consumes
     nothing.  After the last client event receive() suspends for ever, as a real server does while
     the peer is silent."""
@@ -174,6 +180,7 @@ class WsServer:
         self.outstanding = 0       # receive() calls issued and not yet returned/cancelled
         self.calls = 0             # receive() calls after the connect event
         self.sent = []
+        self.refuse_close = False  # the next websocket.close event is refused (send() raises), once
 
     def arrive(self):
         """The next client event becomes available at the server.  Returns False if none is left."""
@@ -226,6 +233,12 @@ class WsServer:
     async def send(self, ev):
         t = ev.get('type', '?') if isinstance(ev, dict) else '?'
         self.log.append({'e': 'SrvSend', 't': t.split('.')[-1], 'ev': ev})
-        self.sent.append(ev)
+        refuse = self.refuse_close and t == 'websocket.close'
+        if refuse:
+            self.refuse_close = False
+        else:
+            self.sent.append(ev)
         if self.send_mode == 'suspend':
             await asyncio.sleep(0)
+        if refuse:
+            raise SendRefused('server send() refused the close event (injected)')
